@@ -360,7 +360,7 @@ def r2(ctx):
     tp = tp[0]
     fsrc = [f for _, f in src.fns(path=GEN, name="asn_attribute_tag")]
     templ, args = S.format_sites(fsrc[0], [gt], P) if fsrc else ([], [])
-    al = S.align(templ, args)
+    al = S.align(templ, args, P)
     Ot = X.Origins(gt, P)
     tarms = {a.path[0][1]: a for a in R.match_tables(P, gt, Ot) if len(a.path) == 1}
     if al is None or not tarms:
@@ -436,7 +436,7 @@ def r3(ctx):
         bodies = [g] + P.closures_of(g)
         templ, args = S.format_sites(fsrc[0], bodies, P)
         # only the range template matters; the other templates are aligned to keep the pairing honest
-        al = S.align(templ, args)
+        al = S.align(templ, args, P)
         if al is None:
             ctx.fail(rule, "anchor-lost:asn_attribute_type#format", "templates and printed arguments cannot be aligned",
                      "%s:%d" % (g.file, g.line), {"templates": templ, "arguments": [a[1] for a in args]})
@@ -472,7 +472,7 @@ def r3(ctx):
         sb = sb[0]
         fsrc = [f for _, f in src.fns(path="asn1rs-model/src/asn/size.rs", name="to_constraint_string")]
         templ, args = S.format_sites(fsrc[0], [sb] + P.closures_of(sb), P)
-        al = S.align(templ, args)
+        al = S.align(templ, args, P)
         Osb = X.Origins(sb, P)
         arms = {a.path[0][1]: a for a in R.match_tables(P, sb, Osb) if len(a.path) == 1}
         if al is None:
@@ -507,7 +507,7 @@ def r3(ctx):
             continue
         fsrc = [f for _, f in src.fns(path=WALKER, name=fname)]
         templ, args = S.format_sites(fsrc[0], [b] + P.closures_of(b), P)
-        al = S.align(templ, args)
+        al = S.align(templ, args, P)
         if al is None:
             ctx.fail(rule, "anchor-lost:%s#format" % fname, "templates and printed arguments cannot be aligned", "%s:%d" % (b.file, b.line),
                      {"templates": templ, "arguments": [a[1] for a in args]})
@@ -543,7 +543,7 @@ def r3(ctx):
             continue
         fsrc = [f for _, f in src.fns(path=WALKER, name=fname)]
         templ, args = S.format_sites(fsrc[0], [b] + P.closures_of(b), P)
-        al = S.align(templ, args)
+        al = S.align(templ, args, P)
         if al is None:
             ctx.fail(rule, "anchor-lost:%s#format" % fname, "templates and printed arguments cannot be aligned", "%s:%d" % (b.file, b.line),
                      {"templates": [t[2] for t in templ], "arguments": [a[1][:60] for a in args]})
